@@ -39,9 +39,9 @@ def main(argv):
     def emit(rec):
         log.write(json.dumps(rec) + "\n")
         log.flush()
-    ix = index.open_dir(d)
     vocab = ["alfa", "bravo", "charlie", "delta"]
     try:
+        ix = index.open_dir(d)
         for j in range(nattempts):
             delay = rng.choice([0.005, 0.02])
             timeout = rng.choice([0.0, 0.0, 0.03, 0.2, 3.0])
